@@ -161,6 +161,11 @@ def block(ch, cfg, depth, ns, in_form=False):
             out.append(T(ch.pick(TEXTS)))
         else:
             out.append(C('c'))
+    if out and ch.p(0.12):
+        import copy
+        dup = [n for n in out if n['k'] == 'e']
+        if dup:
+            out.append(copy.deepcopy(ch.pick(dup)))   # an identical twin of a sibling subtree
     return out
 
 
@@ -183,8 +188,22 @@ def memo_block(ch, ns):
                     E('input', {'type': 'radio', 'name': ch.pick(('g1', 'g2'))}, [], ns=ns)], ns=ns))
             else:
                 kids.append(T('x'))
+        if ch.p(0.3):
+            # an embedded document inside the form, holding controls that must not take part in the outer form's
+            # groups; deliberately the *last* child of its wrapper, with nothing (not even whitespace) after it
+            inner = [E(ch.pick(('button', 'input')), {'type': 'submit'}, [], ns=ns),
+                     E('input', {'type': 'radio', 'name': ch.pick(('g1', 'g2')), 'checked': ''}, [], ns=ns)]
+            if ch.p(0.5):
+                inner.reverse()
+            frame = E('iframe', {}, [E('html', {}, [E('body', {}, inner, ns=ns)], ns=ns)], ns=ns)
+            wrapped = E('div', {}, [frame], ns=ns) if ch.p(0.6) else frame
+            kids.insert(ch.i(0, len(kids)), wrapped)
         node = E('form', {}, kids, ns=ns) if ch.p(0.8) else E('div', {}, kids, ns=ns)
         out.append(node)
+    if ch.p(0.5):
+        # byte-for-byte identical siblings (repeated "add to cart" forms): equal as values, distinct as nodes
+        import copy
+        out.insert(ch.i(0, len(out)), copy.deepcopy(ch.pick(out)))
     return out
 
 
